@@ -822,6 +822,34 @@ def flow_entries():
     E.append(BEntry("flow_span_slice", [("a", "Array<felt252>")], "usize",
                     "let sp = a.span(); sp.slice(0, sp.len()).len()",
                     lambda a: [(True, ok(vint(len(a[1]))))], tags=("flow",)))
+    # spans over arrays built in the function, consumed from both ends and then read again
+    F3 = [("a", "felt252"), ("b", "felt252"), ("c", "felt252")]
+    E.append(BEntry("flow_span_back_back", F3, "(felt252, felt252)",
+                    "let mut s = array![a, b, c].span(); let x = *s.pop_back().unwrap(); "
+                    "let y = *s.pop_back().unwrap(); (x, y)",
+                    lambda a, b, c: [(True, ok(vtuple(c, b)))], tags=("flow",)))
+    E.append(BEntry("flow_span_front_front", F3, "(felt252, felt252)",
+                    "let mut s = array![a, b, c].span(); let x = *s.pop_front().unwrap(); "
+                    "let y = *s.pop_front().unwrap(); (x, y)",
+                    lambda a, b, c: [(True, ok(vtuple(a, b)))], tags=("flow",)))
+    E.append(BEntry("flow_span_back_front", F3, "(felt252, felt252, usize)",
+                    "let mut s = array![a, b, c].span(); let x = *s.pop_back().unwrap(); "
+                    "let y = *s.pop_front().unwrap(); (x, y, s.len())",
+                    lambda a, b, c: [(True, ok(vtuple(c, a, vint(1))))], tags=("flow",)))
+    E.append(BEntry("flow_span_back_at", F3, "(felt252, felt252, felt252)",
+                    "let mut s = array![a, 7, b, c].span(); let x = *s.pop_back().unwrap(); "
+                    "(x, *s.at(0), *s.at(2))",
+                    lambda a, b, c: [(True, ok(vtuple(c, a, b)))], tags=("flow",)))
+    E.append(BEntry("flow_span_front_back_get", F3, "(felt252, felt252)",
+                    "let mut s = array![a, b, c, 9].span(); let _ = s.pop_front(); let _ = "
+                    "s.pop_back(); let l = match s.get(1) { Some(v) => *v.unbox(), None => -1 }; "
+                    "let o = match s.get(2) { Some(v) => *v.unbox(), None => -1 }; (l, o)",
+                    lambda a, b, c: [(True, ok(vtuple(c, vint(P - 1))))], tags=("flow",)))
+    E.append(BEntry("flow_span_multi_pop", F3, "(felt252, usize)",
+                    "let mut s = array![a, b, c].span(); let mut acc = 0; let mut n = 0_usize; "
+                    "while let Some(v) = s.pop_back() { acc = acc * 10 + *v; n += 1; } (acc, n)",
+                    lambda a, b, c: [(True, ok(vtuple(vint((i_(c) * 100 + i_(b) * 10 + i_(a)) % P),
+                                                      vint(3))))], tags=("flow",)))
     E.append(BEntry("flow_return_in_match", [("o", "Option<u8>"), ("d", "u8")], "u8",
                     "let v = match o { Some(v) => v, None => { return d; } }; if v == d { return 7; } "
                     "v",
